@@ -151,6 +151,9 @@ class World:
     def lose(self, i, via):
         if self.dead_task or not self.is_selected(i): return False
         if via == "err": self._resume([], [], [self.cons[i]])
+        elif via == "exc":                                           # an exception leaves read(): a message of a type nothing can unpack
+            self.socks[i].chunks.append(hdr(30, 8, 0))
+            self._resume([self.cons[i]], [], [])
         else: self._resume([self.cons[i]], [], [])                  # recv() answers b"" : EOF
         return True
 
@@ -260,8 +263,15 @@ class C09(Check):
         self.sink = [None]
         self.task = of_01.OpenFlow_01_Task(port=6633)
         nexus = self.core.openflow
+        chk = self
         for name in EVENTS:
             nexus.addListener(getattr(of_01, name), self.recorder("nexus", name), priority=1000000)   # records the moment of the raise
+        # case["mute"]: event kinds that have NO listener on the nexus during the case (raiseEvent then returns None);
+        # case["halt"]: kinds for which an application listener on the nexus halts the event (the connection-level raise is then skipped)
+        self.halted = set()
+        from pox.lib.revent import EventHalt
+        for name in self.QUIET_KINDS:
+            nexus.addListener(getattr(of_01, name), (lambda n: lambda ev: EventHalt if n in chk.halted and chk.sink[0] is not None else None)(name))
         # re-entrant application listeners (run after the recorders); what they do is part of the case: case["listeners"]
         self.listeners = {}
         nexus.addListener(of_01.ConnectionUp, self.app_listener("up"))
@@ -345,6 +355,20 @@ class C09(Check):
                 "through read(), a custom arbiter returning no nexus, `except: pass` arms, the aborted-connections debug timer, the deferred-sender / partial-write / "
                 "EAGAIN arms of Connection.send (C20's business), and in OpenFlow_01_Task.run (anchored whole): bind errors, the SSL branch, pcap wrapping and the "
                 "exception handler after the loop (C10's business)"}
+
+    # event kinds that are not lifecycle announcements: a history may be run with no nexus listener for them, or with one that halts them
+    QUIET_KINDS = ["FeaturesReceived", "PortStatus", "PacketIn", "ErrorIn", "BarrierIn", "RawStatsReply", "SwitchDescReceived"]
+
+    def set_muted(self, names):
+        """remove every nexus-level listener of these event kinds (put back by set_muted([]))"""
+        nexus, of_01 = self.core.openflow, self.of_01
+        for cls, saved in getattr(self, "_muted_saved", {}).items():
+            nexus._eventMixin_handlers[cls] = saved
+        self._muted_saved = {}
+        for n in names:
+            cls = getattr(of_01, n)
+            self._muted_saved[cls] = nexus._eventMixin_handlers.get(cls, [])
+            nexus._eventMixin_handlers[cls] = []
 
     def app_listener(self, which):
         """an application's nexus-level ConnectionUp / ConnectionDown handler that re-enters the controller:
@@ -440,6 +464,8 @@ class C09(Check):
                 o = self.of.ofp_barrier_request(); o.xid = op["x"]; self._objs[op["x"]] = o
         w = World(self)
         self.listeners = dict(case.get("listeners") or {})
+        self.halted = set(case.get("halt") or [])
+        self.set_muted(case.get("mute") or [])
         steps, resolved, regs, states = [], [], [], []
         for op in case["ops"]:
             mark = len(w.log)
@@ -505,7 +531,7 @@ class C09(Check):
             if w.dead_task: break
         nx = self.of.generate_xid()
         w.finish()
-        self.listeners = {}
+        self.listeners = {}; self.halted = set(); self.set_muted([])
         return {"steps": steps, "resolved": resolved, "regs": regs, "states": states, "dead_task": w.dead_task,
                 "next_xid": nx, "nsteps": [self.nsteps(op) for op in case["ops"]]}
 
@@ -557,6 +583,8 @@ class C09(Check):
             n = self.nsteps(op)
             grp = []
             for _ in range(n): grp += next(it)
+            mute, halt = set(case.get("mute") or []), set(case.get("halt") or [])
+            grp = [e for e in grp if not (e[0] == "nexus" and e[1] in mute) and not (e[0] == "con" and e[1] in halt)]
             steps.append(self.round_norm(op, grp))
         return {"steps": steps, "reg": resp["reg"], "regnone": resp["regnone"], "conns": resp["conns"], "next_xid": resp["next_xid"]}
 
@@ -625,6 +653,7 @@ class C09(Check):
     def loss_ops(self, c, kind):
         if kind == "eof": return [{"op": "lose", "c": c, "via": "eof"}]
         if kind == "err": return [{"op": "lose", "c": c, "via": "err"}]
+        if kind == "exc": return [{"op": "lose", "c": c, "via": "exc"}]
         if kind == "disc": return [{"op": "disc", "c": c}]
         if kind == "sockfail": return [{"op": "sockfail", "c": c}]
         if kind == "senderr": return [{"op": "sockfail", "c": c}, {"op": "recv", "c": c, "msgs": [self.M("echo_request", 77)]}]
@@ -659,7 +688,7 @@ class C09(Check):
         for fin in ("barrier", "error"):
             for other in (False, True):
                 for p in range(6):
-                    for kind in ("eof", "err", "disc", "sockfail", "senderr"):
+                    for kind in ("eof", "err", "disc", "sockfail", "senderr", "exc"):
                         for mode in (0, 1):
                             m = self.hs_msgs(5, fin)
                             msgs = m[:2] + [self.M("port_status", 61, r=0)] + m[2:] + [self.M("port_status", 62, r=1)]
@@ -681,6 +710,8 @@ class C09(Check):
         yield {"ops": [C] + up(0, 5) + [R(0, M("error", 9, ty=1, code=1), M("packet_in", 10)), S(5, 1), X(0)], "tag": "error-when-up"}
         yield {"ops": [C, R(0, M("hello", 1), M("features_reply", 2, d=5)), {"op": "sockfail", "c": 0}, R(0, M("echo_request", 4), M("barrier_reply", "good")), S(5, 1), X(0), S(5, 2)], "tag": "send-error-then-barrier"}
         yield {"ops": [C] + up(0, 5) + [{"op": "disc", "c": 0}, C] + up(1, 5) + [X(0), S(5, 1)], "tag": "D3-disc-then-close"}
+        yield {"ops": [C] + up(0, 5) + [R(0, M("port_status", 21), M("packet_in", 22), M("echo_request", 23), M("echo_reply", 24), M("error", 25, ty=2, code=3)),
+                       R(0, M("barrier_reply", 26), M("stats_desc", 27), M("hello", 28), M("features_reply", 29, d=5), M("port_status", 30)), S(5, 1), X(0)], "tag": "all-when-up"}
         yield {"ops": [C] + up(0, 5) + [C] + up(1, 5) + [X(1), S(5, 1), X(0)], "tag": "orphan"}              # newer one dies first
         yield {"ops": [C] + up(0, 5) + [R(0, M("features_reply", 3, d=6)), S(5, 1), S(6, 2), X(0), S(5, 3), S(6, 4)], "tag": "dpid-change"}
         yield {"ops": [C] + up(0, 5) + [C] + up(1, 5) + [R(0, M("features_reply", 3, d=5)), S(5, 1), X(0), S(5, 2), X(1), S(5, 3)], "tag": "refresh"}
@@ -857,9 +888,22 @@ class C09(Check):
                 c2 = self.with_listeners(c, ls)
                 yield c2 if (j + t) % 2 == 0 else self.remap(c2, self.DPID_MAPS[(j + t) % 3])
 
+    MUTES = [{"mute": ["PortStatus"]}, {"mute": ["BarrierIn", "ErrorIn", "PacketIn"]}, {"mute": ["FeaturesReceived", "RawStatsReply", "SwitchDescReceived", "PortStatus"]},
+             {"halt": ["PortStatus"]}, {"halt": ["FeaturesReceived", "BarrierIn", "PacketIn", "ErrorIn", "RawStatsReply", "SwitchDescReceived"]},
+             {"mute": ["PacketIn"], "halt": ["PortStatus", "ErrorIn"]}]
+
+    def quiet_cases(self):
+        """histories run with NO nexus-level listener for some event kinds (raiseEvent returns None) or with one that halts them"""
+        base = list(self.specials()) + list(self.interleavings(1, False, ASYNC))
+        for j, c in enumerate(base):
+            for t, q in enumerate(self.MUTES):
+                if (j + t) % 2: continue
+                c2 = dict(c); c2.update(q); c2["tag"] = c.get("tag", "") + "/quiet"
+                yield c2
+
     def corpus(self):
         cases = list(self._corpus())
-        return cases + list(self.listener_cases())
+        return cases + list(self.listener_cases()) + list(self.quiet_cases())
 
     def _corpus(self):
         cases = list(self.specials())
@@ -915,7 +959,7 @@ class C09(Check):
                     msgs.append(m)
                 if msgs: ops.append({"op": "recv", "c": c, "msgs": msgs})
             elif r < 0.78: ops.append({"op": "sendto", "d": rng.choice([5, 6, 5, 6, 7]), "x": 900 + len(ops)})
-            elif r < 0.88: ops.append({"op": "lose", "c": c, "via": rng.choice(["eof", "err"])})
+            elif r < 0.88: ops.append({"op": "lose", "c": c, "via": rng.choice(["eof", "err", "exc"])})
             elif r < 0.93: ops.append({"op": "disc", "c": c})
             else: ops.append({"op": "sockfail", "c": c})
         for d in (5, 6): ops.append({"op": "sendto", "d": d, "x": 990 + d})
@@ -1040,6 +1084,9 @@ class C09(Check):
             if announced:
                 want = [] if skipped else ps_in[i][ps_window_start.get(i, 0):]
                 for where in ("nexus", "con"):
+                    if (where == "nexus" and "PortStatus" in (case.get("mute") or [])) or (where == "con" and "PortStatus" in (case.get("halt") or [])):
+                        if ps_ev[i][where]: return "early_ps:raised-where-nobody-listens PortStatus on %s for connection %d" % (where, i)
+                        continue
                     if ps_ev[i][where] != want:
                         return "early_ps:lost-or-reordered connection %d: port-status raised on %s %s, received since the features reply %s" % (i, where, ps_ev[i][where], want)
         # ---- registry after every operation
